@@ -8,19 +8,36 @@ for pid in [a for a in sys.argv[1:] if not a.startswith("--")]:
     wt = f"/tmp/wt{ROUND}_c{pid[1:]}"
     for x in "AB":
         patch, demo = f"{wt}/seed_{x}.patch.diff", f"{wt}/demo_{x}.py"
-        if not (os.path.exists(patch) and os.path.exists(demo)):
-            print(pid, x, "missing"); continue
         d = f"{V}/seeded/{pid}_{x}" if not ROUND else f"{V}/seeded/{pid}_r{ROUND}{x}"
+        have = os.path.exists(f"{d}/patch.diff") and os.path.exists(f"{d}/demo.py")
+        if not have and not (os.path.exists(patch) and os.path.exists(demo)):
+            print(pid, x, "missing"); continue
         os.makedirs(d, exist_ok=True)
         if not os.path.exists(f"{d}/patch.diff"):      # a patch already collected may have been re-based by hand
             shutil.copy(patch, f"{d}/patch.diff")
         if not os.path.exists(f"{d}/demo.py"):
             shutil.copy(demo, f"{d}/demo.py")
-        if os.path.exists(f"{d}/run.json") and "--force" not in sys.argv:
+        if os.path.exists(f"{d}/run.json") and "--force" not in sys.argv and "--recheck" not in sys.argv:
             print(pid, x, "already run"); continue
-        r = subprocess.run([sys.executable, "-m", "mc.seedrun", f"{d}/patch.diff", f"{d}/demo.py", pid, "--seeds", "0,1"],
-                           capture_output=True, text=True, cwd=V)
-        open(f"{d}/run.json", "w").write(r.stdout or json.dumps({"error": r.stderr[-500:]}))
+        recheck = "--recheck" in sys.argv and os.path.exists(f"{d}/run.json")
+        old = json.load(open(f"{d}/run.json")) if recheck else {}
+        recheck = recheck and "tests_with_change" in old
+        r = subprocess.run([sys.executable, "-m", "mc.seedrun", f"{d}/patch.diff", f"{d}/demo.py", pid, "--seeds", "0,1"] +
+                           (["--skip-tests"] if recheck else []), capture_output=True, text=True, cwd=V)
+        if recheck:
+            # demo and checks re-run on the current tree with the current checks; the suite result is the one recorded
+            # when the change was first confirmed
+            try:
+                rec = json.loads(r.stdout)
+                rec["tests_with_change"] = old["tests_with_change"]
+                rec["suite_run"] = "when the change was first confirmed; demonstration and checks re-run on the current tree"
+                r_stdout = json.dumps(rec, indent=1)
+            except Exception:
+                r_stdout = r.stdout
+        else:
+            r_stdout = r.stdout
+        open(f"{d}/run.json", "w").write(r_stdout or json.dumps({"error": r.stderr[-500:]}))
+        r = type("R", (), {"stdout": r_stdout, "stderr": r.stderr})()
         try:
             rec = json.loads(r.stdout)
             print(pid, x, "tests:", rec.get("tests_with_change"), "| demo with/without:", rec.get("demo_with_change_exit"),
